@@ -258,7 +258,8 @@ def _c18_cov(rs):
             "traces_validated_against_impl": _sum(rs, "endings") + _sum(rs, "sequences_balanced") + _sum(rs, "pool_histories"),
             "distinct_nontrivial": _sum(rs, "ended_by_handler_exception") + _sum(rs, "ended_by_fatal_error") + _sum(rs, "terminate_with_custom_manager_checked") + _sum(rs, "pool_histories"),
             "nonvacuity": {k: _sum(rs, k) for k in ("ended_normally", "ended_by_fatal_error", "ended_by_handler_exception", "ended_by_library_exception", "allocations_through_ledger",
-                                                     "global_growth_checks", "sequences_balanced", "terminate_with_custom_manager_checked", "work_items", "pool_histories")},
+                                                     "global_growth_checks", "sequences_balanced", "terminate_with_custom_manager_checked", "work_items", "pool_histories",
+                                                     "known_defect:parser-created-on-locked-pool-used-after-unlock")},
             "explanation": "states = (document, API, object lifetime) scenarios and balanced Initialize/Terminate sequences; transitions/traces = every way each scenario can end "
                            "(completion, fatal error, exception from the k-th callback for every k, progressive parse abandoned after every parseNext), each executed on the "
                            "real library with ledger MemoryManagers"}
@@ -279,11 +280,13 @@ CHECKS["C18"] = dict(
          "cacheGrammarFromParse, parse of a malformed document, lockPool, unlockPool, resetCachedGrammarPool, switch to a second parser on the same pool} x {SAX2XMLReader, "
          "XercesDOMParser} x {IGXMLScanner, DGXMLScanner, SGXMLScanner} is executed, then the parsers and finally the pool are destroyed: ledger empty, no foreign or double release.",
     trusted_base=["clang 14 ASan/UBSan (use-after-free on released blocks)"],
-    assumptions=["allocation failure is not injected", "blocks the library takes from operator new directly (not through a MemoryManager) are only covered by ASan, not by the ledger"],
+    assumptions=["grammar-pool histories stop (counted as known_defect:parser-created-on-locked-pool-used-after-unlock) where a parser that was constructed while the pool was locked is used "
+                 "after unlockPool(): the listed defect c18-parser-created-on-locked-pool-used-after-unlock; the run grammar-pool-stale-parser-witness executes the minimal such history strictly",
+                 "allocation failure is not injected", "blocks the library takes from operator new directly (not through a MemoryManager) are only covered by ASan, not by the ledger"],
     coverage=_c18_cov,
     runs=dict(
-        quick=[_mx("parse-endings-k1", "--space", "parse", "--k", 1), _mx("init-term-depth5", "--space", "initterm", "--depth", 5), _mx("grammar-pool-histories-depth3", "--space", "pool", "--depth", 3)],
-        thorough=[_mx("parse-endings-k2", "--space", "parse", "--k", 2), _mx("init-term-depth7", "--space", "initterm", "--depth", 7), _mx("grammar-pool-histories-depth4", "--space", "pool", "--depth", 4)],
+        quick=[_mx("parse-endings-k1", "--space", "parse", "--k", 1), _mx("init-term-depth5", "--space", "initterm", "--depth", 5), _mx("grammar-pool-histories-depth3", "--space", "pool", "--depth", 3), _mx("grammar-pool-stale-parser-witness", "--space", "poolwitness")],
+        thorough=[_mx("parse-endings-k2", "--space", "parse", "--k", 2), _mx("init-term-depth7", "--space", "initterm", "--depth", 7), _mx("grammar-pool-histories-depth4", "--space", "pool", "--depth", 4), _mx("grammar-pool-stale-parser-witness", "--space", "poolwitness")],
     ),
     manifest=dict(technique="exhaustive enumeration of parse endings (every callback index, every parseNext count) and of balanced Initialize/Terminate sequences on the real library with ledger memory managers",
                   text="Every ending within the stated bounds is executed; the ledger invariant is evaluated after each."),
